@@ -7,6 +7,7 @@ import (
 
 	"github.com/hknutzen/Netspoc-Approve/go/pkg/device"
 	"github.com/hknutzen/Netspoc-Approve/go/pkg/program"
+	"github.com/hknutzen/Netspoc-Approve/go/pkg/verifhook"
 	"github.com/spf13/pflag"
 )
 
@@ -59,11 +60,14 @@ func Main() int {
 		}
 		cfg.User = *user
 		fname := args[0]
+		verifhook.Point("drc:start")
 		lockFH, err := device.SetLock(fname, cfg)
 		if err != nil {
 			return abort("%v", err)
 		}
 		defer lockFH.Close()
+		verifhook.Point("drc:locked")
+		defer verifhook.Point("drc:end")
 		return device.ApproveOrCompare(
 			*isCompare, fname, cfg, *logDir, *logFile, *quiet)
 	case 2:
